@@ -322,4 +322,196 @@ theorem spec_insertRange_inv (hst : StrictTotal lt) {cap : Nat} (ks : List α) :
   | nil => intro l h; exact h
   | cons k ks ih => intro l h; exact ih (spec_insert_inv hst h k)
 
+/-! ## histories -/
+
+/-- invariant of a history state: both live sets are strictly ascending and within capacity -/
+def Inv (lt : α → α → Bool) (cap : Nat) (s : St α) : Prop := Inv1 lt cap s.cur ∧ Inv1 lt cap s.other
+
+/-- extract/replace exist for flat_set only -/
+def opOk (kind : Kind) : Op α → Bool
+  | .extract | .replace _ => kind != .ss
+  | _ => true
+
+theorem spec_eraseKey_inv {cap : Nat} {l : List α} (h : Inv1 lt cap l) (k : α) :
+    Inv1 lt cap (Spec.eraseKey lt l k).1 :=
+  ⟨sorted_filter h.1 _, Nat.le_trans (List.length_filter_le _ _) h.2⟩
+
+theorem spec_eraseRange_inv {cap : Nat} {l : List α} (h : Inv1 lt cap l) (f la : Nat) (hfl : f ≤ la) :
+    Inv1 lt cap (Spec.eraseRange l f la).1 := by
+  refine ⟨sorted_eraseRange h.1 f la hfl, ?_⟩
+  have := h.2
+  simp [Spec.eraseRange]; omega
+
+/-- every operation keeps both sets strictly ascending (hence unique) and within capacity -/
+theorem step_inv (hst : StrictTotal lt) (isSet : Bool) {cap : Nat} {s : St α} (hinv : Inv lt cap s) (op : Op α)
+    (hv : Spec.valid cap lt s op = true) : Inv lt cap (Spec.step isSet lt cap s op).1 := by
+  obtain ⟨h1, h2⟩ := hinv
+  cases op with
+  | insert k => exact ⟨spec_insert_inv hst h1 k, h2⟩
+  | insertRange ks => exact ⟨spec_insertRange_inv hst ks h1, h2⟩
+  | eraseKey k => exact ⟨spec_eraseKey_inv h1 k, h2⟩
+  | eraseAt pos => exact ⟨spec_eraseRange_inv h1 pos (pos + 1) (by omega), h2⟩
+  | eraseRange f la =>
+    simp [Spec.valid] at hv
+    exact ⟨spec_eraseRange_inv h1 f la hv.1, h2⟩
+  | clear => exact ⟨⟨List.Pairwise.nil, Nat.zero_le _⟩, h2⟩
+  | swap => exact ⟨h2, h1⟩
+  | extract =>
+    cases isSet
+    · exact ⟨⟨List.Pairwise.nil, Nat.zero_le _⟩, h2⟩
+    · exact ⟨h1, h2⟩
+  | replace c =>
+    simp [Spec.valid] at hv
+    cases isSet
+    · exact ⟨⟨hv.2, hv.1⟩, h2⟩
+    · exact ⟨h1, h2⟩
+  | find k het => exact ⟨h1, h2⟩
+  | contains k het => exact ⟨h1, h2⟩
+  | count k het => exact ⟨h1, h2⟩
+  | lowerBound k => exact ⟨h1, h2⟩
+  | upperBound k => exact ⟨h1, h2⟩
+  | equalRange k => exact ⟨h1, h2⟩
+
+/-- One operation of any of the three set kinds on a state satisfying the invariant: the model
+    never errors and produces exactly the spec's new state and observable result. -/
+theorem step_refines [DecidableEq α] (hst : StrictTotal lt) (kind : Kind) {cap : Nat} {s : St α}
+    (hinv : Inv lt cap s) (op : Op α) (hv : Spec.valid cap lt s op = true) (hk : opOk kind op = true) :
+    step kind lt cap s op = .ok (Spec.step (kind == .ss) lt cap s op) := by
+  obtain ⟨h1, h2⟩ := hinv
+  have hs := h1.1
+  cases op with
+  | insert k =>
+    cases kind <;> simp [step, Spec.step, ssInsert_eq hst h1, fsEmplace_eq hst h1, fiEmplace_eq hst h1]
+  | insertRange ks =>
+    cases kind <;>
+      simp [step, Spec.step, ssInsertRange_eq hst ks h1, fsInsertRange_eq hst ks h1, fiInsertRange_eq hst ks h1]
+  | eraseKey k =>
+    cases kind
+    · simp [step, Spec.step, ssEraseKey_eq hst hs]
+    · simp [step, Spec.step, fsEraseKey_eq hst]
+    · obtain ⟨l1, e1, e2, e3, e4⟩ := remove_erase_spec hst s.cur k
+      have hme : miniErase l1 (Spec.eraseKey lt s.cur k).1.length l1.length
+          = .ok (l1.take (Spec.eraseKey lt s.cur k).1.length ++ l1.drop l1.length,
+              (Spec.eraseKey lt s.cur k).1.length) := by
+        unfold miniErase
+        have : (decide ((Spec.eraseKey lt s.cur k).1.length > l1.length) || decide (l1.length > l1.length)) = false := by
+          simp; omega
+        rw [this]; rfl
+      have e2' : l1.take (Spec.eraseKey lt s.cur k).1.length = (Spec.eraseKey lt s.cur k).1 := by simpa using e2
+      simp [step, Spec.step, e1, hme, e2', e4]
+  | eraseAt pos =>
+    simp [Spec.valid] at hv
+    cases kind
+    · simp [step, Spec.step, ssEraseAt_eq _ _ hv]
+    · simp [step, Spec.step, ssEraseAt_eq _ _ hv]
+    · have : (decide (pos > pos + 1) || decide (pos + 1 > s.cur.length)) = false := by simp; omega
+      simp [step, Spec.step, miniErase, this, Spec.eraseRange]
+  | eraseRange f la =>
+    simp [Spec.valid] at hv
+    cases kind
+    · simp [step, Spec.step, ssEraseRange_eq _ _ _ hv.1 hv.2]
+    · simp [step, Spec.step, ssEraseRange_eq _ _ _ hv.1 hv.2]
+    · have : (decide (f > la) || decide (la > s.cur.length)) = false := by simp; omega
+      simp [step, Spec.step, miniErase, this, Spec.eraseRange]
+  | clear => cases kind <;> simp [step, Spec.step]
+  | swap => cases kind <;> simp [step, Spec.step]
+  | extract => cases kind <;> simp [opOk] at hk <;> simp [step, Spec.step]
+  | replace c =>
+    simp [Spec.valid] at hv
+    have : ¬ c.length > cap := by omega
+    cases kind <;> simp [opOk] at hk <;> simp [step, Spec.step, this]
+  | find k het =>
+    cases kind <;> cases het <;> simp [step, Spec.step, ssFind_eq hst hs, findLB_eq hst hs]
+  | contains k het =>
+    have hc : ((Spec.find lt s.cur k) != s.cur.length) = Spec.contains lt s.cur k := by
+      unfold Spec.find
+      cases hcc : Spec.contains lt s.cur k with
+      | false => simp
+      | true =>
+        simp only [if_true]
+        obtain ⟨A, B, hl, _, hsl, _, _, _, hcase⟩ := probe hst hs k
+        rcases hcase with ⟨B', hB, _, _, _⟩ | ⟨_, _, hcf⟩
+        · rw [hsl, hl, hB]; simp
+        · rw [hcf] at hcc; cases hcc
+    cases kind <;> cases het <;> simp [step, Spec.step, ssFind_eq hst hs, findLB_eq hst hs, hc]
+  | count k het =>
+    have hc : ((Spec.find lt s.cur k) != s.cur.length) = Spec.contains lt s.cur k := by
+      unfold Spec.find
+      cases hcc : Spec.contains lt s.cur k with
+      | false => simp
+      | true =>
+        simp only [if_true]
+        obtain ⟨A, B, hl, _, hsl, _, _, _, hcase⟩ := probe hst hs k
+        rcases hcase with ⟨B', hB, _, _, _⟩ | ⟨_, _, hcf⟩
+        · rw [hsl, hl, hB]; simp
+        · rw [hcf] at hcc; cases hcc
+    have hc2 : (if Spec.find lt s.cur k = s.cur.length then 0 else 1)
+        = (if Spec.contains lt s.cur k = true then 1 else 0) := by
+      cases hcc : Spec.contains lt s.cur k with
+      | false => rw [hcc] at hc; simp at hc; simp [hc]
+      | true => rw [hcc] at hc; simp at hc; simp [hc]
+    cases kind <;> cases het <;> simp [step, Spec.step, ssFind_eq hst hs, findLB_eq hst hs, hc2]
+  | lowerBound k => cases kind <;> simp [step, Spec.step, lowerBound_eq hst hs]
+  | upperBound k => cases kind <;> simp [step, Spec.step, upperBound_eq hst hs]
+  | equalRange k => cases kind <;> simp [step, Spec.step, equalRange_eq hst hs]
+
+/-- all operations of the history are defined for this kind of set -/
+def opsOk (kind : Kind) (ops : List (Op α)) : Bool := ops.all (opOk kind)
+
+/-- precondition of a history as the generator uses it: every operation meets its documented
+    precondition in the state the *spec* reaches -/
+def validHist (isSet : Bool) (lt : α → α → Bool) (cap : Nat) : St α → List (Op α) → Bool
+  | _, [] => true
+  | s, op :: ops => Spec.valid cap lt s op && validHist isSet lt cap (Spec.step isSet lt cap s op).1 ops
+
+/-- MAIN THEOREM (refinement over histories).  From any state whose two sets are strictly
+    ascending and within capacity, every history of insert/emplace, range insert, erase by
+    key/position/range, clear, swap, extract, replace and all lookups — of any length, for any
+    capacity, key type and strict total comparator, for static_set and both flat_set backings —
+    runs without a single out-of-vector access, precondition violation or exhausted loop bound,
+    and its outputs (positions, inserted flags, `full` reports, erased counts, lookup answers,
+    extracted contents) and final state equal those of the std::set specification. -/
+theorem run_refines [DecidableEq α] (hst : StrictTotal lt) (kind : Kind) (cap : Nat) :
+    ∀ (ops : List (Op α)) (s : St α), Inv lt cap s → opsOk kind ops = true →
+      validHist (kind == .ss) lt cap s ops = true →
+      run kind lt cap s ops = .ok (Spec.run (kind == .ss) lt cap s ops) := by
+  intro ops
+  induction ops with
+  | nil => intro s _ _ _; rfl
+  | cons op ops ih =>
+    intro s hinv hok hv
+    simp only [opsOk, List.all_cons, Bool.and_eq_true] at hok
+    simp only [validHist, Bool.and_eq_true] at hv
+    have hstep := step_refines hst kind hinv op hv.1 hok.1
+    have hinv' := step_inv hst (kind == .ss) hinv op hv.1
+    have hrest := ih (Spec.step (kind == .ss) lt cap s op).1 hinv' hok.2 hv.2
+    simp only [run, Spec.run, hstep, ok_bind, hrest]
+
+/-- MAIN THEOREM (invariant over histories): after every valid history both sets are strictly
+    ascending w.r.t. the comparator — hence duplicate-free — and within capacity. -/
+theorem inv_history (hst : StrictTotal lt) (isSet : Bool) (cap : Nat) :
+    ∀ (ops : List (Op α)) (s : St α), Inv lt cap s → validHist isSet lt cap s ops = true →
+      Inv lt cap (Spec.run isSet lt cap s ops).1 := by
+  intro ops
+  induction ops with
+  | nil => intro s h _; exact h
+  | cons op ops ih =>
+    intro s hinv hv
+    simp only [validHist, Bool.and_eq_true] at hv
+    exact ih _ (step_inv hst isSet hinv op hv.1) hv.2
+
+/-- the comparators of the harness satisfy the hypothesis -/
+theorem strictTotal_nat_lt : StrictTotal (fun a b : Nat => decide (a < b)) :=
+  ⟨by simp, by intro a b c; simp; omega, by intro a b; simp; omega⟩
+theorem strictTotal_nat_gt : StrictTotal (fun a b : Nat => decide (a > b)) :=
+  ⟨by simp, by intro a b c; simp; omega, by intro a b; simp; omega⟩
+
+-- non-vacuity: a concrete state and history satisfying every hypothesis of `run_refines`
+example : Inv (fun a b : Nat => decide (a < b)) 3 { cur := [1, 3, 5], other := [2] } :=
+  ⟨⟨by unfold Sorted; decide, by decide⟩, ⟨by unfold Sorted; decide, by decide⟩⟩
+example : validHist false (fun a b : Nat => decide (a < b)) 3 { cur := [1, 3, 5], other := [2] }
+    [.insert 4, .eraseKey 2, .eraseAt 1, .insert 4, .swap, .eraseRange 0 1, .replace [0, 7], .extract] = true := by
+  decide
+example : opsOk Kind.fs ([.insert 4, .swap, .replace [0, 7], .extract] : List (Op Nat)) = true := by decide
+
 end Tetl.C09.Props
